@@ -332,7 +332,10 @@ def h_quarter(sx, cfg):
         fr = df.FieldRotator(f)
         newn = list(n)
         newn[a], newn[b] = n[b], n[a]
-        fr.rotate("from_matrix", _fm(Q), n=tuple(newn))
+        if cfg.get("default_n"):
+            fr.rotate("from_matrix", _fm(Q))  # the rotator chooses the resolution: cubic cells keep their size
+        else:
+            fr.rotate("from_matrix", _fm(Q), n=tuple(newn))
         g = fr.field
     h = f.rotate90("xyz"[a], "xyz"[b], k=1)
     sx.check("same-n", tuple(int(x) for x in g.mesh.n) == tuple(int(x) for x in h.mesh.n))
@@ -466,6 +469,9 @@ def tasks(tier):
     for axis in (0, 1, 2):
         for nv in ((1,) if q and axis else (1, 3)):
             t.append(dict(harness="h_quarter", cfg=dict(n=[2, 3, 4][axis:] + [2, 3, 4][:axis], axis=axis, nvdim=nv), limits=big))
+    # default resolution, cubic cells of decimal size (edge / cell is an integer only up to rounding)
+    for n, axis, c, p1 in (((2, 2, 5), 0, 0.1, [0.0, 0.0, 0.0]), ((2, 5, 3), 2, 0.1, [0.0, 0.0, 0.0]), ((3, 2, 4), 1, 0.7, [0.1, 0.2, 0.3]), ((4, 3, 2), 0, 5e-9, [1e-9, 2e-9, -3e-9])):
+        t.append(dict(harness="h_quarter", cfg=dict(n=list(n), axis=axis, nvdim=1, c=c, p1=p1, default_n=True), limits=big))
     t.append(dict(harness="h_methods", cfg=dict(n=[4, 4, 4], newn=[6, 6, 6])))
     t.append(dict(harness="h_refuse", cfg={}))
     return t
